@@ -46,6 +46,7 @@ def jobs(tier):
                 out.append(("gvc.props.c15", "ob_windows", dict(D=D, dyn=dk, const=ck, batched=False)))
                 if not q or ck == consts[1]:
                     out.append(("gvc.props.c15", "ob_windows", dict(D=D, dyn=dk, const=ck, batched=True)))
+            out.append(("gvc.props.c15", "ob_windows_history", dict(D=D, dyn=dk, const=consts[1], params=[9, 2, 2, 2, 1])))
             for ds in ([1] if q else [1, 2]):
                 out.append(("gvc.props.c15", "ob_downsample", dict(D=D, dyn=dk, const=consts[1] if D > 0 else [], downsample=ds)))
     return out
@@ -96,10 +97,15 @@ def ob_idxs():
     return obs
 
 
-def _setup(D, dyn, const, ntraj=None):
+def _setup(D, dyn, const, ntraj=None, concrete=None):
     Wd = World(D)
     pre = Wd.pre
-    T, p, f, dt, s, W = _params(pre)
+    if concrete is not None:
+        T, p, f, dt, s = concrete           # concrete window parameters (call-history obligations): real numpy runs on the host
+        W = T - s - (p + f - 1) * dt
+        assert W >= 1
+    else:
+        T, p, f, dt, s, W = _params(pre)
     lead = [Atom(ntraj, "traj")] if ntraj is not None else []
     tA = Atom(T, "T")
     dynb, cstb, cdim = {}, {}, {}
@@ -201,6 +207,34 @@ def ob_windows(D, dyn, const, batched):
         obs.append(guard(_nm(fn, **structure) + "/canary:targets-one-step-early", "canary", lambda: all_paths(pre, run, post_bad), structure))
     return obs
 
+
+
+def ob_windows_history(D, dyn, const, params):
+    """call history: the same windowing done SEVERAL times in one process with the same (concrete) window parameters and a
+    positive skip -- a memoised index table, a mutated default or any other state kept between calls would show on the later
+    calls, which must still satisfy the statement (channel counts, extents and field values stay symbolic)."""
+    G, D_ = geom(), data()
+    Wd, pre, prm, tA, dynb, cstb, cdim = _setup(D, dyn, const, concrete=tuple(params))
+    T, p, f, dt, s, W = prm
+    structure = dict(D=D, dynamic=dyn, constant=const, params=dict(T=T, p=p, f=f, dt=dt, s=s), calls=3)
+    Xs, Ys, keys_x = _spec(Wd, D, prm, dynb, cstb, cdim, [])
+    t = tuple(i % 2 == 0 for i in range(D))
+
+    def run():
+        res = None
+        for _ in range(3):
+            res = D_.times_series_to_multi_images(G.MultiImage(dict(dynb), D, t), G.MultiImage(dict(cstb), D, t), T, p, f, s, dt, 0)
+        # a call with another total length but the same (p, f, dt, T - s) in between, then once more
+        return res
+
+    def post(res):
+        st = cmp_blocks(res[0], Xs, D, t, keys_x, "inputs of the third call")
+        if st[0] != "proved":
+            return st
+        return cmp_blocks(res[1], Ys, D, t, list(dynb.keys()), "targets of the third call")
+    o = guard(_nm("times_series_to_multi_images", **structure) + "/ensures:windows-after-earlier-calls", "ensures", lambda: all_paths(pre, run, post), structure)
+    o["replay"] = dict(scenario="history", D=D, dynamic=dyn, constant=const, params=list(params))
+    return [o]
 
 def ob_downsample(D, dyn, const, downsample):
     """downsample d == d-fold average_pool(2) of the d=0 result (average_pool stubbed by contract)"""
